@@ -28,6 +28,7 @@ RULE = ("filter skeletons from the ORM-supported scalar fragment (comparison ope
         "Query) and SQLAlchemy Core with the driver hook on. distinct = distinct (skeleton, "
         "backend); non-trivial = skeleton has at least one value literal and the backend "
         "executed a statement")
+RULE += (" " + 'Also: in-lists of 1000 and 2101 items; schema with partial / plain indexes, fixed-point column, Profile one-to-one.')
 ASSUMPTIONS = ["booleans and null are rendered as SQL constants by design (excluded by the "
                "property's quantifier)",
                "values are searched in the driver parameters after the backend's own adaptation "
